@@ -52,9 +52,9 @@ type State struct {
 	retVal Value
 	depth  int
 
-	panicked bool
-	trail    []string // human-readable path description
-	labels   map[string]*State // labelled snapshots (loop entry etc.)
+	panicked     bool
+	trail        []string          // human-readable path description
+	labels       map[string]*State // labelled snapshots (loop entry etc.)
 	lastCallRets []Value
 	assumeTo     *State // facts learned while evaluating in this (old) state go here
 }
